@@ -140,7 +140,14 @@ Print Assumptions C04_mark_zombie_bookkeeping.
     line.  NOT proved here: that a later draw caused by dropping an UNFINISHED bar (which repaints
     and reaps head zombies with LineAdjust::Keep) leaves the kept rows intact on the screen -
     that needs the terminal semantics and the ordering invariants of C02/C03; it is checked on
-    the implementation by the screen oracle (harness/src/sysoracle.rs). *)
+    the implementation by the screen oracle (harness/src/sysoracle.rs) and it is FALSE in one
+    recorded situation, the open finding D22 (known_findings.json, class
+    bottom-alignment-kept-rows-misplaced): MultiProgressAlignment::Bottom with padding rows above
+    the bars (shift > 0) when a visibly finished, dropped bar is reaped at the head of the
+    ordering - Keep(rows) then keeps the padding rows, the bar's final frame is erased by the
+    next draw.  So the screen-level kept clause is claimed (by oracle, not by theorem) for Top
+    alignment and for Bottom alignment without shift only; the theorem below (the drop phase
+    itself makes no call) holds for every alignment. *)
 Theorem C04_kept_partial : forall W H fails ops s,
   Forall (fun to => exists b, snd to = ODrop b /\ finished (get_bar s b) = true) ops ->
   snd (run W H fails s ops) = [] /\
@@ -173,3 +180,20 @@ Example C04_nonvacuous_member :
   (N.to_nat 1 < length (ms_members m))%nat /\ ms_order m = [0] ++ 1 :: [2] /\ ~ In 1 [0] /\ ~ In 1 [2] /\
   ms_compose (ms_store m 1 [] [mkline KBar [66]]) = [mkline KBar [65]; mkline KBar [66]; mkline KBar [67]].
 Proof. cbn. repeat split; try lia; intros [Hx|[]]; discriminate. Qed.
+(* two members, both finished visibly, dropped in the order 1, 0: no call; bar 0 (head) is reaped
+   at its drop (its row becomes a kept row), bar 1 stays in the ordering as a zombie *)
+Definition ex04k_sys : sys :=
+  fst (run 20 10 no_faults
+         (mksys [new_bar (Some 5) FAndLeave [PLit [65]; PPos] THidden 0;
+                 new_bar (Some 7) FAndLeave [PLit [66]; PPos] THidden 0]
+                (new_ms (TTerm (new_ttarget None 0))) 0)
+         [(0, OInsert BEnd 0); (0, OInsert BEnd 1); (10, OFinish 1 FAndLeave); (20, OFinish 0 FAbandon)]).
+Example C04_nonvacuous_kept :
+  Forall (fun to => exists b, snd to = ODrop b /\ finished (get_bar ex04k_sys b) = true)
+         [(30, ODrop 1); (40, ODrop 0)] /\
+  kept_plus_live ex04k_sys = 2 /\
+  (let s' := fst (run 20 10 no_faults ex04k_sys [(30, ODrop 1); (40, ODrop 0)]) in
+   ms_zombie_lines (s_mp s') = 1 /\ target_n (ms_target (s_mp s')) = 1 /\ ms_order (s_mp s') = [1]).
+Proof.
+  split; [repeat constructor; eexists; split; reflexivity|]. vm_compute. repeat split.
+Qed.
